@@ -263,7 +263,136 @@ fn early_push(sub: &str, msg: &str, case: Value) {
 /// 600) the run is ended: a minimal report with the failures seen so far (unshrunk) is written to `out`
 /// and the process exits with status 3 ("report written, infrastructure problem"; run.py reports the
 /// recorded violations and otherwise exit 2 - a hang by itself is never reported as a violation).
+static RUN_INFO: std::sync::OnceLock<(String, Value)> = std::sync::OnceLock::new();
+
+/// per-worker record of the case being evaluated (for the stalled-call monitor of the proptest drivers)
+pub struct Slot<C> {
+    beat: std::sync::atomic::AtomicU64,
+    cur: Mutex<Option<C>>,
+}
+
+impl<C: Clone> Slot<C> {
+    pub fn new() -> Slot<C> {
+        Slot { beat: std::sync::atomic::AtomicU64::new(0), cur: Mutex::new(None) }
+    }
+    #[inline]
+    pub fn enter(&self, c: &C) {
+        if let Ok(mut g) = self.cur.lock() {
+            *g = Some(c.clone());
+        }
+        self.beat.fetch_add(1, Ordering::Relaxed);
+    }
+    #[inline]
+    pub fn leave(&self) {
+        if let Ok(mut g) = self.cur.lock() {
+            *g = None;
+        }
+        self.beat.fetch_add(1, Ordering::Relaxed);
+    }
+}
+
+/// Re-execute one case alone (`<this binary> replay <file>`) with a 60 s limit, twice; true = it never returned.
+pub fn confirm_hang(property: &str, sub: &str, config: &str, profile: &str, case: &Value) -> bool {
+    let dir = std::env::var("VERIF_SHM_DIR").unwrap_or_else(|_| "/dev/shm".into());
+    let file = format!("{dir}/verif-hang-{}-{:x}.json", std::process::id(), splitmix(hash_bytes(case.to_string().as_bytes())));
+    let body = json!({"property": property, "subcheck": sub, "config": config, "profile": profile, "case": case});
+    if std::fs::write(&file, body.to_string()).is_err() {
+        return false;
+    }
+    let exe = match std::env::current_exe() {
+        Ok(e) => e,
+        Err(_) => return false,
+    };
+    let mut hung = true;
+    for _ in 0..2 {
+        let mut child = match std::process::Command::new(&exe)
+            .args(["replay", &file])
+            .stdin(std::process::Stdio::null())
+            .stdout(std::process::Stdio::null())
+            .stderr(std::process::Stdio::null())
+            .spawn()
+        {
+            Ok(c) => c,
+            Err(_) => {
+                hung = false;
+                break;
+            },
+        };
+        let t0 = std::time::Instant::now();
+        let mut returned = false;
+        while t0.elapsed().as_secs() < 60 {
+            if let Ok(Some(_)) = child.try_wait() {
+                returned = true;
+                break;
+            }
+            std::thread::sleep(std::time::Duration::from_millis(100));
+        }
+        if returned {
+            hung = false;
+            break;
+        }
+        let _ = child.kill();
+        let _ = child.wait();
+    }
+    let _ = std::fs::remove_file(&file);
+    hung
+}
+
+/// Monitor of one proptest sub-check: a worker that stays in one case for VERIF_CASE_STALL_S (default 45)
+/// seconds is examined: its case is re-executed alone in a fresh process (`confirm_hang`); if that does
+/// not return either, the run is ended with a report that carries the case as a "does not return"
+/// violation (plus the failures seen so far); otherwise the stall is put down to a starved machine.
+fn stall_monitor<C: Clone>(slots: &[Slot<C>], stop: &std::sync::atomic::AtomicBool, render: &(dyn Fn(usize, &C) -> Value + Sync), sub: &str, ctx: &Ctx) {
+    let limit = std::env::var("VERIF_CASE_STALL_S").ok().and_then(|s| s.parse::<u64>().ok()).unwrap_or(45);
+    let mut seen: Vec<(u64, std::time::Instant, bool)> = slots.iter().map(|s| (s.beat.load(Ordering::Relaxed), std::time::Instant::now(), false)).collect();
+    while !stop.load(Ordering::Relaxed) {
+        std::thread::sleep(std::time::Duration::from_millis(500));
+        for (i, s) in slots.iter().enumerate() {
+            let b = s.beat.load(Ordering::Relaxed);
+            if b != seen[i].0 {
+                seen[i] = (b, std::time::Instant::now(), false);
+                continue;
+            }
+            if seen[i].2 || seen[i].1.elapsed().as_secs() < limit {
+                continue;
+            }
+            let cur = s.cur.lock().ok().and_then(|g| g.clone());
+            let case = match cur {
+                Some(c) => c,
+                None => continue,
+            };
+            let mut cj = render(i, &case);
+            if confirm_hang(&ctx.property, sub, &ctx.config, &ctx.profile, &cj) {
+                if let Some(o) = cj.as_object_mut() {
+                    o.insert("hang".into(), json!(true));
+                }
+                let msg = format!("the call does not return: a worker stayed in this case for {limit} s and the case, re-executed alone in a fresh process, did not return within 60 s (twice)");
+                eprintln!("NON-TERMINATION {} {sub}: {cj}", ctx.property);
+                if let Some((out, ctx_json)) = RUN_INFO.get() {
+                    let early = EARLY.lock().map(|e| e.clone()).unwrap_or_default();
+                    let mut rep = ctx_json.clone();
+                    rep["evaluations"] = json!(PROGRESS.load(Ordering::Relaxed));
+                    rep["distinct_nontrivial"] = json!(0);
+                    rep["rule"] = json!("");
+                    rep["subchecks"] = json!({});
+                    rep["samples"] = json!([]);
+                    rep["wall_s"] = json!(0.0);
+                    rep["notes"] = json!(["the run was ended because a call into the library did not return; other violations listed are unshrunk first sightings"]);
+                    let mut v: Vec<Value> = vec![json!({"subcheck": format!("{sub}:non-termination"), "message": msg, "case": cj})];
+                    v.extend(early.iter().map(|(s, m, c)| json!({"subcheck": s, "message": format!("(before a hang ended the run) {m}"), "case": c})));
+                    rep["violations"] = Value::Array(v);
+                    let _ = std::fs::write(out, serde_json::to_string(&rep).unwrap_or_default());
+                }
+                std::process::exit(3);
+            }
+            // the case returned when run alone: starved machine; do not examine this beat again
+            seen[i].2 = true;
+        }
+    }
+}
+
 pub fn start_watchdog(what: String, out: String, ctx_json: Value) {
+    let _ = RUN_INFO.set((out.clone(), ctx_json.clone()));
     let limit_s = std::env::var("VERIF_WATCHDOG_S").ok().and_then(|s| s.parse::<u64>().ok()).unwrap_or(600);
     std::thread::spawn(move || {
         let mut last = PROGRESS.load(std::sync::atomic::Ordering::Relaxed);
@@ -384,12 +513,48 @@ pub fn run_prop<C, S>(
     to_json: impl Fn(&C) -> Value + Sync,
     test: impl Fn(&C, &mut Local) -> CaseResult + Sync,
 ) where
-    C: Debug + Clone,
+    C: Debug + Clone + Send,
     S: Strategy<Value = C>,
 {
     let n_workers = if cases < 2000 { 1 } else { 32 };
     let per = (cases + n_workers as u64 - 1) / n_workers as u64;
-    let results = run_workers(ctx.threads, n_workers, |w| {
+    let slots: Vec<Slot<C>> = (0..n_workers).map(|_| Slot::new()).collect();
+    let stop = std::sync::atomic::AtomicBool::new(false);
+    let render = |_w: usize, c: &C| to_json(c);
+    let results = std::thread::scope(|sc| {
+        sc.spawn(|| stall_monitor(&slots, &stop, &render, sub, ctx));
+        let r = run_prop_workers(ctx, sub, n_workers, per, &slots, &make_strategy, &to_json, &test);
+        stop.store(true, Ordering::Relaxed);
+        r
+    });
+    let mut merged = Local::new();
+    for (l, v) in results {
+        merged.merge(l);
+        if let Some((msg, case)) = v {
+            // keep at most 3 violations per subcheck (distinct seeds usually find the same root cause)
+            if rep.violations.iter().filter(|x| x.subcheck == sub).count() < max_viol() {
+                rep.violation(sub, msg, case);
+            }
+        }
+    }
+    rep.add(sub, merged);
+}
+
+fn run_prop_workers<C, S>(
+    ctx: &Ctx,
+    sub: &str,
+    n_workers: usize,
+    per: u64,
+    slots: &[Slot<C>],
+    make_strategy: &(impl Fn() -> S + Sync),
+    to_json: &(impl Fn(&C) -> Value + Sync),
+    test: &(impl Fn(&C, &mut Local) -> CaseResult + Sync),
+) -> Vec<(Local, Option<(String, Value)>)>
+where
+    C: Debug + Clone + Send,
+    S: Strategy<Value = C>,
+{
+    run_workers(ctx.threads, n_workers, |w| {
         let seed = mix(ctx.seed, &[&ctx.property, sub, &ctx.config, &w.to_string()]);
         let mut seed_bytes = [0u8; 32];
         for i in 0..4 {
@@ -411,10 +576,12 @@ pub fn run_prop<C, S>(
         let strategy = make_strategy();
         let res = runner.run(&strategy, |case| {
             let mut l = local.borrow_mut();
+            slots[w].enter(&case);
             let r = match guard(|| test(&case, &mut l)) {
                 Ok(r) => r,
                 Err(p) => Err(Fail::new(format!("harness/oracle panic (not a library verdict): {p}"))),
             };
+            slots[w].leave();
             match r {
                 Ok(()) => Ok(()),
                 Err(f) => {
@@ -448,18 +615,7 @@ pub fn run_prop<C, S>(
             }
         }
         (local.into_inner(), viol)
-    });
-    let mut merged = Local::new();
-    for (l, v) in results {
-        merged.merge(l);
-        if let Some((msg, case)) = v {
-            // keep at most 3 violations per subcheck (distinct seeds usually find the same root cause)
-            if rep.violations.iter().filter(|x| x.subcheck == sub).count() < max_viol() {
-                rep.violation(sub, msg, case);
-            }
-        }
-    }
-    rep.add(sub, merged);
+    })
 }
 
 /// Like `run_prop`, but one single-threaded proptest runner per *job* (e.g. per format), jobs
@@ -475,10 +631,46 @@ pub fn run_prop_jobs<J, C, S>(
     test: impl Fn(&J, &C, &mut Local) -> CaseResult + Sync,
 ) where
     J: Sync,
-    C: Debug + Clone,
+    C: Debug + Clone + Send,
     S: Strategy<Value = C>,
 {
-    let results = run_workers(ctx.threads, jobs.len(), |w| {
+    let slots: Vec<Slot<C>> = (0..jobs.len()).map(|_| Slot::new()).collect();
+    let stop = std::sync::atomic::AtomicBool::new(false);
+    let render = |w: usize, c: &C| to_json(&jobs[w], c);
+    let results = std::thread::scope(|sc| {
+        sc.spawn(|| stall_monitor(&slots, &stop, &render, sub, ctx));
+        let r = run_prop_jobs_workers(ctx, sub, jobs, cases_per_job, &slots, &make_strategy, &to_json, &test);
+        stop.store(true, Ordering::Relaxed);
+        r
+    });
+    let mut merged = Local::new();
+    for (l, v) in results {
+        merged.merge(l);
+        if let Some((msg, case)) = v {
+            if rep.violations.iter().filter(|x| x.subcheck == sub).count() < max_viol().max(12) {
+                rep.violation(sub, msg, case);
+            }
+        }
+    }
+    rep.add(sub, merged);
+}
+
+fn run_prop_jobs_workers<J, C, S>(
+    ctx: &Ctx,
+    sub: &str,
+    jobs: &[J],
+    cases_per_job: u64,
+    slots: &[Slot<C>],
+    make_strategy: &(impl Fn(&J) -> S + Sync),
+    to_json: &(impl Fn(&J, &C) -> Value + Sync),
+    test: &(impl Fn(&J, &C, &mut Local) -> CaseResult + Sync),
+) -> Vec<(Local, Option<(String, Value)>)>
+where
+    J: Sync,
+    C: Debug + Clone + Send,
+    S: Strategy<Value = C>,
+{
+    run_workers(ctx.threads, jobs.len(), |w| {
         let job = &jobs[w];
         let seed = mix(ctx.seed, &[&ctx.property, sub, &ctx.config, "job", &w.to_string()]);
         let mut seed_bytes = [0u8; 32];
@@ -502,10 +694,12 @@ pub fn run_prop_jobs<J, C, S>(
         let strategy = make_strategy(job);
         let res = runner.run(&strategy, |case| {
             let mut l = local.borrow_mut();
+            slots[w].enter(&case);
             let r = match guard(|| test(job, &case, &mut l)) {
                 Ok(r) => r,
                 Err(p) => Err(Fail::new(format!("harness/oracle panic (not a library verdict): {p}"))),
             };
+            slots[w].leave();
             match r {
                 Ok(()) => Ok(()),
                 Err(f) => {
@@ -537,17 +731,7 @@ pub fn run_prop_jobs<J, C, S>(
             }
         }
         (local.into_inner(), viol)
-    });
-    let mut merged = Local::new();
-    for (l, v) in results {
-        merged.merge(l);
-        if let Some((msg, case)) = v {
-            if rep.violations.iter().filter(|x| x.subcheck == sub).count() < max_viol().max(12) {
-                rep.violation(sub, msg, case);
-            }
-        }
-    }
-    rep.add(sub, merged);
+    })
 }
 
 /// Drive an exhaustive / stratified enumeration: `n_chunks` chunks processed by logical workers.
